@@ -14,8 +14,10 @@ def main():
     keys = KEYS + [[rng.randrange(256) for _ in range(16)] for _ in range(3 if thorough else 1)]
     rks = [rk_bytes(round_keys(k)) for k in keys]
     pls = [0, 1, 15, 16, 17, 31, 33, 63, 64, 65, 127, 129, 255, 257, 271, 513, 1100] if not thorough else sorted(set(list(range(0, 100)) + [127, 128, 129, 255, 256, 257, 271, 511, 513, 1023, 1025, 1100]))
-    tuples = sorted(set([(12, pl, al, ts) for pl in pls for al in (0, 5) for ts in (12, 16)] + [(nl, pl, 17, ts) for nl in (1, 13, 16, 129) for pl in (0, 17, 271) for ts in (12, 14, 16)]))
-    ck.bounds.append('openAsm / Open: %d length tuples (plaintext 0..%d, tag 12..16, nonce 1..129), keys {sample, 0, 1s, seeded}; authentic messages = sealed by the specification with up to 3+2 symbolic data bytes; received tag fully symbolic for the verdict; all ciphertext/aad bits symbolic for the bit-flip claim on short messages' % (len(tuples), pls[-1]))
+    als = sorted(set(list(range(0, 70)) + [127, 128, 129, 133, 191, 192, 193, 255, 256, 257, 271, 1100]))
+    tuples = sorted(set([(12, pl, al, ts) for pl in pls for al in (0, 5) for ts in (12, 16)] + [(nl, pl, 17, ts) for nl in (1, 13, 16, 129) for pl in (0, 17, 271) for ts in (12, 14, 16)] +
+                        [(12, pl, al, ts) for al in (als if thorough else [1, 15, 16, 31, 33, 63, 64, 65, 127, 128, 129, 133, 191, 193, 257, 271]) for (pl, ts) in ((0, 16), (37, 13))]))
+    ck.bounds.append('openAsm / Open: %d length tuples (plaintext 0..%d, aad 0..271 in 17 classes, tag 12..16, nonce 1..129), keys {sample, 0, 1s, seeded}; authentic messages = sealed by the specification with up to 3+2 symbolic data bytes; received tag fully symbolic for the verdict; all ciphertext/aad bits symbolic for the bit-flip claim on short messages' % (len(tuples), pls[-1]))
     ck.outside.append('keys are concrete (see C06); forgeries that collide on the tag are not excluded (GCM security, not a code property); nonce bit flips (the initial counter passes through SM4, not linear)')
     fails = {}
     t0 = time.time()
